@@ -34,6 +34,7 @@ func runC09(c *core.Ctx) core.Meta {
 	pd := NewPkgInfo(c, dispPkg)
 	pr := NewPkgInfo(c, resPkg)
 	pc := NewPkgInfo(c, cpPkg)
+	checkNoCompactionWhileRanging(c, "R09.12", 6, pd, pr, pc)
 
 	// ---------------- R09.1 placement algorithms agree ----------------
 	checkPlacementSiblings(c, pd, prov, "R09.1")
@@ -584,6 +585,53 @@ func runC09(c *core.Ctx) core.Meta {
 			}
 		}
 	}
+	// the calls of a mask method made by a function of CUResourceImpl, directly or in the helpers
+	// of the package it calls (two levels); a mask that a helper receives as a parameter is the
+	// mask the caller passes
+	type maskCall struct {
+		cc   *ssa.CallCommon
+		in   ssa.Instruction
+		fn   *ssa.Function
+		mask string
+	}
+	var maskCallsIn func(fn *ssa.Function, method string, subst map[*ssa.Parameter]string, d int) []maskCall
+	maskCallsIn = func(fn *ssa.Function, method string, subst map[*ssa.Parameter]string, d int) []maskCall {
+		var out []maskCall
+		resolve := func(v ssa.Value) string {
+			if p, ok := core.StripConv(v).(*ssa.Parameter); ok {
+				if s, ok := subst[p]; ok {
+					return s
+				}
+			}
+			return prov.Of(v)
+		}
+		for _, b := range fn.Blocks {
+			for _, in := range b.Instrs {
+				cc := core.CallOf(in)
+				if cc == nil {
+					continue
+				}
+				if cc.IsInvoke() {
+					if cc.Method.Name() == method {
+						out = append(out, maskCall{cc, in, fn, resolve(cc.Value)})
+					}
+					continue
+				}
+				cal := cc.StaticCallee()
+				if cal == nil || cal.Pkg != fn.Pkg || len(cal.Blocks) == 0 || d >= 2 || cal == fn {
+					continue
+				}
+				sub := map[*ssa.Parameter]string{}
+				for i, p := range cal.Params {
+					if i < len(cc.Args) {
+						sub[p] = resolve(cc.Args[i])
+					}
+				}
+				out = append(out, maskCallsIn(cal, method, sub, d+1)...)
+			}
+		}
+		return out
+	}
 	maskSet := func(fnName string, method string, argFilter func(args []string) bool) map[string]bool {
 		out := map[string]bool{}
 		fn := c.SSAFunc(resPkg, "CUResourceImpl."+fnName)
@@ -591,23 +639,16 @@ func runC09(c *core.Ctx) core.Meta {
 			c.Report(core.Finding{Rule: "R09.5", Kind: "anchor", Pkg: resPkg, Func: "CUResourceImpl." + fnName, Detail: "anchor", Msg: "function not found"})
 			return out
 		}
-		for _, b := range fn.Blocks {
-			for _, in := range b.Instrs {
-				cc := core.CallOf(in)
-				if cc == nil || !cc.IsInvoke() || cc.Method.Name() != method {
-					continue
-				}
-				var args []string
-				for _, a := range cc.Args {
-					args = append(args, prov.Of(a))
-				}
-				if argFilter != nil && !argFilter(args) {
-					continue
-				}
-				m := prov.Of(cc.Value)
-				m = regexp.MustCompile(`\[.*\]`).ReplaceAllString(m, "[*]")
-				out[m] = true
+		for _, mc := range maskCallsIn(fn, method, nil, 0) {
+			var args []string
+			for _, a := range mc.cc.Args {
+				args = append(args, prov.Of(a))
 			}
+			if argFilter != nil && !argFilter(args) {
+				continue
+			}
+			m := regexp.MustCompile(`\[.*\]`).ReplaceAllString(mc.mask, "[*]")
+			out[m] = true
 		}
 		return out
 	}
@@ -649,24 +690,19 @@ func runC09(c *core.Ctx) core.Meta {
 		if fn == nil {
 			return
 		}
-		for _, b := range fn.Blocks {
-			for _, in := range b.Instrs {
-				cc := core.CallOf(in)
-				if cc == nil || !cc.IsInvoke() || cc.Method.Name() != method {
-					continue
+		for _, mc := range maskCallsIn(fn, method, nil, 0) {
+			cc := mc.cc
+			st5.Instances++
+			n := len(cc.Args)
+			ok := true
+			for i, w := range want {
+				if prov.Of(cc.Args[n-len(want)+i]) != w {
+					ok = false
 				}
-				st5.Instances++
-				n := len(cc.Args)
-				ok := true
-				for i, w := range want {
-					if prov.Of(cc.Args[n-len(want)+i]) != w {
-						ok = false
-					}
-				}
-				st5.Ob(ok)
-				if !ok {
-					c.ReportAt("R09.5", fn, in.Pos(), fnName+":"+method+":status", what)
-				}
+			}
+			st5.Ob(ok)
+			if !ok {
+				c.ReportAt("R09.5", mc.fn, mc.in.Pos(), fnName+":"+method+":status", what)
 			}
 		}
 	}
@@ -959,27 +995,45 @@ func slotIsSourceOf(prov *core.Prov, addr ssa.Value, wg ssa.Value) (bool, string
 			return false, "source call not resolved"
 		}
 		cal := call.Call.StaticCallee()
-		for _, b := range cal.Blocks {
-			for _, in := range b.Instrs {
-				ret, ok := in.(*ssa.Return)
-				if !ok || len(ret.Results) != 2 {
-					continue
-				}
-				if core.IsNilConst(ret.Results[0]) {
-					continue
-				}
-				ld, ok := ret.Results[0].(*ssa.UnOp)
-				if !ok {
-					return false, cal.Name() + " returns a work-group that is not read from a slot"
-				}
-				ia, ok := ld.X.(*ssa.IndexAddr)
-				if !ok {
-					return false, cal.Name() + " returns a work-group that is not read from a slot"
-				}
-				if core.StripConv(ia.Index) != core.StripConv(ret.Results[1]) {
-					return false, cal.Name() + " returns slots[" + ia.Index.Name() + "] together with index " + ret.Results[1].Name()
+		var pairs func(cal *ssa.Function, d int) (bool, string)
+		pairs = func(cal *ssa.Function, d int) (bool, string) {
+			for _, b := range cal.Blocks {
+				for _, in := range b.Instrs {
+					ret, ok := in.(*ssa.Return)
+					if !ok || len(ret.Results) != 2 {
+						continue
+					}
+					if core.IsNilConst(ret.Results[0]) {
+						continue
+					}
+					// both results handed through from one call of a helper: the helper is judged
+					e0, ok0 := ret.Results[0].(*ssa.Extract)
+					e1, ok1 := ret.Results[1].(*ssa.Extract)
+					if ok0 && ok1 && e0.Tuple == e1.Tuple && e0.Index == 0 && e1.Index == 1 && d < 3 {
+						if sub, ok := e0.Tuple.(*ssa.Call); ok && sub.Call.StaticCallee() != nil && sub.Call.StaticCallee().Pkg == cal.Pkg {
+							if ok, why := pairs(sub.Call.StaticCallee(), d+1); !ok {
+								return false, why
+							}
+							continue
+						}
+					}
+					ld, ok := ret.Results[0].(*ssa.UnOp)
+					if !ok {
+						return false, cal.Name() + " returns a work-group that is not read from a slot"
+					}
+					ia, ok := ld.X.(*ssa.IndexAddr)
+					if !ok {
+						return false, cal.Name() + " returns a work-group that is not read from a slot"
+					}
+					if core.StripConv(ia.Index) != core.StripConv(ret.Results[1]) {
+						return false, cal.Name() + " returns slots[" + ia.Index.Name() + "] together with index " + ret.Results[1].Name()
+					}
 				}
 			}
+			return true, ""
+		}
+		if ok, why := pairs(cal, 0); !ok {
+			return false, why
 		}
 		return true, ""
 	}
@@ -1183,13 +1237,44 @@ func checkPlacementSiblings(c *core.Ctx, pd *PkgInfo, prov *core.Prov, rule stri
 		}
 		// HasNext
 		if hn := c.MustFunc(rule, dispPkg, tn+".HasNext"); hn != nil && counter != "" {
+			// `counter < n`, written directly, mirrored, negated, or through a predicate helper
+			// of the algorithm (`!a.allDispatched()` with allDispatched = counter >= n)
 			ok := false
 			for _, b := range hn.Blocks {
 				for _, in := range b.Instrs {
-					if r, isRet := in.(*ssa.Return); isRet && len(r.Results) == 1 {
-						if bo, isB := r.Results[0].(*ssa.BinOp); isB && bo.Op == token.LSS && prov.Of(bo.X) == "recv."+counter {
-							ok = true
+					r, isRet := in.(*ssa.Return)
+					if !isRet || len(r.Results) != 1 {
+						continue
+					}
+					v, neg := stripNot(r.Results[0])
+					for d := 0; d < 3; d++ {
+						body, isP := predicateBody(v)
+						if !isP {
+							break
 						}
+						v2, n2 := stripNot(body)
+						v = v2
+						if n2 {
+							neg = !neg
+						}
+					}
+					bo, isB := v.(*ssa.BinOp)
+					if !isB {
+						continue
+					}
+					op := bo.Op
+					switch {
+					case prov.Of(bo.X) == "recv."+counter:
+					case prov.Of(bo.Y) == "recv."+counter:
+						op = mirrorCmp(op)
+					default:
+						continue
+					}
+					if neg {
+						op = map[token.Token]token.Token{token.GEQ: token.LSS, token.LSS: token.GEQ, token.GTR: token.LEQ, token.LEQ: token.GTR, token.EQL: token.NEQ, token.NEQ: token.EQL}[op]
+					}
+					if op == token.LSS {
+						ok = true
 					}
 				}
 			}
